@@ -292,7 +292,7 @@ func mkVar(way, v string) *acase {
 // ---------------------------------------------------------------------------
 
 type env struct {
-	bin, argdump, scratch, defaultTaskfile string
+	bin, argdump, scratch, defaultTaskfile, capDir string
 }
 
 func taskfile(e *env, c *acase) string {
@@ -520,7 +520,11 @@ func Run(id string, start time.Time) int {
 		fmt.Fprintln(os.Stderr, err)
 		return 2
 	}
-	e := &env{bin: bin, scratch: scratch, argdump: filepath.Join(scratch, "argdump")}
+	e := &env{bin: bin, scratch: scratch, argdump: filepath.Join(scratch, "argdump"), capDir: filepath.Join(scratch, "capture")}
+	if err := os.MkdirAll(e.capDir, 0o755); err != nil {
+		fmt.Fprintln(os.Stderr, err)
+		return 2
+	}
 	cmd := exec.Command("go", "build", "-o", e.argdump, "./cmd/argdump")
 	cmd.Dir = filepath.Join(h.VerifDir(), "harness")
 	if _, err := os.Stat(cmd.Dir); err != nil {
@@ -582,7 +586,7 @@ func Run(id string, start time.Time) int {
 			part.Inconc(fmt.Sprintf("case %d: %v", i, err))
 			return
 		}
-		res := h.CLI{Bin: bin, Dir: proj, Args: args, Env: envv, Timeout: 120 * time.Second}.Run()
+		res := runCLI(h.CLI{Bin: bin, Dir: proj, Args: args, Env: envv, Timeout: 120 * time.Second}, filepath.Join(e.capDir, fmt.Sprintf("c%06d", i)))
 		part.Eval(c.key(), nontrivial)
 		part.Count("cli_runs", 1)
 		part.Count("runs."+c.Family+map[bool]string{true: "." + c.Way, false: ""}[c.Way != ""], 1)
